@@ -4,6 +4,7 @@ import (
 	"context"
 	"errors"
 	"fmt"
+	"sync"
 	"testing"
 	"testing/synctest"
 	"time"
@@ -12,6 +13,7 @@ import (
 	builderapi "github.com/attestantio/go-builder-client/api"
 	builderspec "github.com/attestantio/go-builder-client/spec"
 	"github.com/attestantio/go-eth2-client/api"
+	"github.com/attestantio/go-eth2-client/spec"
 	"github.com/attestantio/go-eth2-client/spec/bellatrix"
 	"github.com/attestantio/go-eth2-client/spec/phase0"
 	"github.com/attestantio/vouch/mock"
@@ -61,18 +63,38 @@ func relayAddr(i int, r RelayIn) string {
 }
 
 type p2relay struct {
-	idx  int
-	addr string
+	idx     int
+	addr    string
+	variant int
+	mu      sync.Mutex
+	calls   int
 }
 
 func (m *p2relay) Name() string              { return fmt.Sprintf("relay-%d", m.idx) }
 func (m *p2relay) Address() string           { return m.addr }
 func (m *p2relay) Pubkey() *phase0.BLSPubKey { return nil }
 
+// bidAnswer: what a relay answers to BuilderBid, by the variant of its entry and the call number: a
+// failure, an error-free response without data (no bid), or an empty bid; from the second call on
+// (the code asks each relay once per auction) the next of the three.
+func (m *p2relay) bidAnswer() (*builderapi.Response[*builderspec.VersionedSignedBuilderBid], error) {
+	m.mu.Lock()
+	m.calls++
+	k := (m.variant/3 + m.calls - 1) % 3
+	m.mu.Unlock()
+	switch k {
+	case 1:
+		return &builderapi.Response[*builderspec.VersionedSignedBuilderBid]{Metadata: map[string]any{}}, nil
+	case 2:
+		return &builderapi.Response[*builderspec.VersionedSignedBuilderBid]{Data: &builderspec.VersionedSignedBuilderBid{Version: spec.DataVersionDeneb}, Metadata: map[string]any{}}, nil
+	}
+	return nil, errors.New("scripted relay failure")
+}
+
 type p2full struct{ *p2relay }
 
-func (p2full) BuilderBid(context.Context, *builderapi.BuilderBidOpts) (*builderapi.Response[*builderspec.VersionedSignedBuilderBid], error) {
-	return nil, errors.New("scripted relay failure")
+func (m p2full) BuilderBid(context.Context, *builderapi.BuilderBidOpts) (*builderapi.Response[*builderspec.VersionedSignedBuilderBid], error) {
+	return m.bidAnswer()
 }
 func (p2full) UnblindProposal(context.Context, *builderapi.UnblindProposalOpts) (*builderapi.Response[*api.VersionedSignedProposal], error) {
 	return nil, errors.New("not scripted")
@@ -80,8 +102,8 @@ func (p2full) UnblindProposal(context.Context, *builderapi.UnblindProposalOpts) 
 
 type p2bidonly struct{ *p2relay }
 
-func (p2bidonly) BuilderBid(context.Context, *builderapi.BuilderBidOpts) (*builderapi.Response[*builderspec.VersionedSignedBuilderBid], error) {
-	return nil, errors.New("scripted relay failure")
+func (m p2bidonly) BuilderBid(context.Context, *builderapi.BuilderBidOpts) (*builderapi.Response[*builderspec.VersionedSignedBuilderBid], error) {
+	return m.bidAnswer()
 }
 
 func runRelays(t *testing.T, in []RelayIn) result {
@@ -98,7 +120,7 @@ func runRelays(t *testing.T, in []RelayIn) result {
 		relays := make([]*beaconblockproposer.RelayConfig, 0, len(in))
 		for i, r := range in {
 			addr := relayAddr(i, r)
-			m := &p2relay{idx: i, addr: addr}
+			m := &p2relay{idx: i, addr: addr, variant: r.Variant}
 			switch r.Kind {
 			case "full":
 				util.InjectBuilderClientC09(addr, p2full{m})
